@@ -86,6 +86,7 @@ type tokSpec struct {
 	kind    string
 	kid     string
 	signer  *keyEnt
+	alg     jose.SignatureAlgorithm
 	compact string
 	payload []byte
 }
@@ -99,18 +100,20 @@ type step struct {
 }
 
 type script struct {
+	viaRP bool // the key set is the one rp.NewRelyingPartyOIDC(..., rp.WithHTTPClient(c)).IDTokenVerifier() uses (only without SkipRemoteCheck)
 	skip  bool
 	steps []step
 	tags  []string
 }
 
-var allAlgs = []jose.SignatureAlgorithm{jose.ES256, jose.ES384, jose.EdDSA, jose.RS256, jose.PS256}
+var rsaAlgs = []jose.SignatureAlgorithm{jose.RS256, jose.RS384, jose.RS512, jose.PS256, jose.PS384, jose.PS512}
+var allAlgs = append([]jose.SignatureAlgorithm{jose.ES256, jose.ES384, jose.ES512, jose.EdDSA}, rsaAlgs...)
 
 // 20 keys: key sets of more than 8 (up to 20) distinct keys are possible; three key types,
 // two curves, two RSA algorithms
 func mkPool() []*keyEnt {
 	var pool []*keyEnt
-	for i := 0; i < 9; i++ {
+	for i := 0; i < 7; i++ {
 		k, err := ecdsa.GenerateKey(elliptic.P256(), crand.Reader)
 		must(err)
 		pool = append(pool, &keyEnt{kty: "KEc", alg: jose.ES256, priv: k, pub: &k.PublicKey})
@@ -119,6 +122,11 @@ func mkPool() []*keyEnt {
 		k, err := ecdsa.GenerateKey(elliptic.P384(), crand.Reader)
 		must(err)
 		pool = append(pool, &keyEnt{kty: "KEc", alg: jose.ES384, priv: k, pub: &k.PublicKey})
+	}
+	for i := 0; i < 2; i++ { // ES512 is defined on P-521 (521 bits, not 512)
+		k, err := ecdsa.GenerateKey(elliptic.P521(), crand.Reader)
+		must(err)
+		pool = append(pool, &keyEnt{kty: "KEc", alg: jose.ES512, priv: k, pub: &k.PublicKey})
 	}
 	for i := 0; i < 6; i++ {
 		pub, priv, err := ed25519.GenerateKey(crand.Reader)
@@ -143,12 +151,12 @@ func must(err error) {
 	}
 }
 
-func sign(kid string, k *keyEnt, payload []byte) string {
+func sign(kid string, k *keyEnt, alg jose.SignatureAlgorithm, payload []byte) string {
 	var sk any = k.priv
 	if kid != "" {
 		sk = jose.JSONWebKey{Key: k.priv, KeyID: kid}
 	}
-	s, err := jose.NewSigner(jose.SigningKey{Algorithm: k.alg, Key: sk}, nil)
+	s, err := jose.NewSigner(jose.SigningKey{Algorithm: alg, Key: sk}, nil)
 	must(err)
 	o, err := s.Sign(payload)
 	must(err)
@@ -221,7 +229,7 @@ func coqJwk(j *jwkSpec) string {
 }
 
 func coqTok(t *tokSpec) string {
-	return emit.Ctor("mkTok", emit.Str(t.kid), emit.Str(string(t.signer.alg)), emit.Nat(t.signer.mat))
+	return emit.Ctor("mkTok", emit.Str(t.kid), emit.Str(string(t.alg)), emit.Nat(t.signer.mat))
 }
 
 func coqResp(r *respSpec) string {
@@ -263,6 +271,12 @@ func coqScript(s *script) string {
 				ks[k] = coqJwk(j)
 			}
 			items[i] = emit.Ctor("MRotate", emit.List(ks))
+		case "neighbour":
+			ks := make([]string, len(st.set))
+			for k, j := range st.set {
+				ks[k] = coqJwk(j)
+			}
+			items[i] = emit.Ctor("MNeighbour", emit.List(ks))
 		default:
 			items[i] = emit.Ctor("MRelease", coqResp(st.resp))
 		}
@@ -312,7 +326,48 @@ type gate struct {
 	quit    chan struct{}
 }
 
+const issuerURL, jwksURL = "http://jwks.invalid", "http://jwks.invalid/keys"
+
+// discovery answers the OP's discovery document (at once, not counted, never gated)
+func discovery(req *http.Request) *http.Response {
+	if !strings.HasSuffix(req.URL.Path, "/openid-configuration") {
+		return nil
+	}
+	doc := `{"issuer":"` + issuerURL + `","jwks_uri":"` + jwksURL + `","authorization_endpoint":"` + issuerURL + `/authorize","token_endpoint":"` + issuerURL + `/token","id_token_signing_alg_values_supported":["RS256","ES256"]}`
+	return &http.Response{StatusCode: 200, Status: "200 OK", Proto: "HTTP/1.1", ProtoMajor: 1, ProtoMinor: 1,
+		Header: http.Header{"Content-Type": []string{"application/json"}}, Body: io.NopCloser(strings.NewReader(doc)), Request: req}
+}
+
+// newKeySet obtains a key set for jwksURL with its own http client: directly, or as a relying
+// party gets it (discovery through the same client, then IDTokenVerifier().KeySet)
+func newKeySet(tr http.RoundTripper, viaRP, skip bool) oidc.KeySet {
+	c := &http.Client{Transport: tr}
+	if viaRP && !skip {
+		party, err := rp.NewRelyingPartyOIDC(context.Background(), issuerURL, "client", "", "http://rp.invalid/cb", []string{"openid"}, rp.WithHTTPClient(c))
+		must(err)
+		return party.IDTokenVerifier().KeySet
+	}
+	if skip {
+		return rp.NewRemoteKeySet(c, jwksURL, rp.SkipRemoteCheck())
+	}
+	return rp.NewRemoteKeySet(c, jwksURL)
+}
+
+// staticEndpoint: the JWKS document another deployment behind the same jwks_uri string serves
+type staticEndpoint struct{ doc *respSpec }
+
+func (e *staticEndpoint) RoundTrip(req *http.Request) (*http.Response, error) {
+	if r := discovery(req); r != nil {
+		return r, nil
+	}
+	return &http.Response{StatusCode: 200, Status: "200 OK", Proto: "HTTP/1.1", ProtoMajor: 1, ProtoMinor: 1,
+		Header: e.doc.header(), Body: e.doc.reader(), Request: req}, nil
+}
+
 func (g *gate) RoundTrip(req *http.Request) (*http.Response, error) {
+	if r := discovery(req); r != nil {
+		return r, nil
+	}
 	p := &pending{ch: make(chan *respSpec, 1)}
 	g.mu.Lock()
 	g.started++
@@ -492,14 +547,37 @@ func (rn *runner) keyOf(k jose.JSONWebKey) cKey {
 	return c
 }
 
+// neighbour: another key set for the same jwks_uri string, obtained the same way, whose own http
+// client reaches a different document; it verifies a token of its own first key. What it answers
+// is its own business (bounded wait: on a broken tree it may be stuck behind OUR gate).
+func (rn *runner) neighbour(s *script, st step) {
+	done := make(chan struct{})
+	go func() {
+		defer close(done)
+		drv.Catch(func() {
+			nks := newKeySet(&staticEndpoint{doc: plainGood(st.set)}, s.viaRP, s.skip)
+			ctx, cancel := context.WithTimeout(context.Background(), 300*time.Millisecond)
+			defer cancel()
+			if jws, err := jose.ParseSigned(st.tok.compact, allAlgs); err == nil {
+				_, _ = nks.VerifySignature(ctx, jws)
+			}
+		})
+	}()
+	select {
+	case <-done:
+	case <-time.After(2 * time.Second):
+	}
+}
+
 func (rn *runner) run(s *script) (snaps []snap, panicked bool) {
 	g := &gate{quit: make(chan struct{})}
-	var ks oidc.KeySet
-	if s.skip {
-		ks = rp.NewRemoteKeySet(&http.Client{Transport: g}, "http://jwks.invalid/keys", rp.SkipRemoteCheck())
-	} else {
-		ks = rp.NewRemoteKeySet(&http.Client{Transport: g}, "http://jwks.invalid/keys")
+	// a leading neighbour step comes BEFORE this key set exists (the neighbour is the first user of the jwks_uri)
+	lead := 0
+	for lead < len(s.steps) && s.steps[lead].op == "neighbour" {
+		rn.neighbour(s, s.steps[lead])
+		lead++
 	}
+	ks := newKeySet(g, s.viaRP, s.skip)
 	type cctx struct {
 		ctx    context.Context
 		cancel context.CancelFunc
@@ -586,6 +664,10 @@ func (rn *runner) run(s *script) (snaps []snap, panicked bool) {
 			time.Sleep(2*time.Millisecond + rn.settle)
 		case "release":
 			delivered = g.release(st.resp)
+		case "neighbour":
+			if si >= lead {
+				rn.neighbour(s, st)
+			}
 		}
 		quiet := rn.quiesce(ks, g, callers)
 		for _, d := range deadlines { // a deadline that is (nearly) over before its Expire step
@@ -841,7 +923,11 @@ func (g *gen) timeline(n int) [][]*jwkSpec {
 func (g *gen) token(kind, kid string, signer *keyEnt) *tokSpec {
 	g.ntok++
 	payload := []byte(fmt.Sprintf(`{"sub":"u%d","n":%d}`, g.ntok, g.r.IntN(1000)))
-	return &tokSpec{kind: kind, kid: kid, signer: signer, payload: payload, compact: sign(kid, signer, payload)}
+	alg := signer.alg
+	if signer.kty == "KRsa" { // an RSA key signs with every RSxxx / PSxxx algorithm
+		alg = drv.Pick(g.r, rsaAlgs)
+	}
+	return &tokSpec{kind: kind, kid: kid, signer: signer, alg: alg, payload: payload, compact: sign(kid, signer, alg, payload)}
 }
 
 // a token relative to the timeline: idx = set the endpoint currently publishes
@@ -1093,6 +1179,30 @@ func (g *gen) randomScript() *script {
 	if g.r.Chance(1, 2) { // a straggler and a last answer
 		s.steps = append(s.steps, step{op: "release", resp: g.goodResp(tl[idx])})
 	}
+	s.viaRP = g.r.Chance(1, 3)
+	if g.r.Chance(1, 4) { // another deployment behind the same jwks_uri string: before this key set exists, or any time later
+		nset := []*jwkSpec{g.newJwk()}
+		if g.r.Bool() {
+			nset = append(nset, g.newJwk())
+		}
+		for _, j := range nset {
+			if j.kid == "" {
+				j.kid = g.freshKid()
+			}
+			j.use = "sig"
+		}
+		nb := step{op: "neighbour", set: nset, tok: g.token("valid", nset[0].kid, nset[0].key)}
+		at := 0
+		if g.r.Bool() {
+			at = g.r.IntN(len(s.steps) + 1)
+		}
+		s.steps = append(s.steps[:at:at], append([]step{nb}, s.steps[at:]...)...)
+		// and its token shows up here
+		at2 := at + 1 + g.r.IntN(len(s.steps)-at)
+		dj := drv.Pick(g.r, nset)
+		decoy := step{op: "arrive", tok: g.token("other_deployment", dj.kid, dj.key)}
+		s.steps = append(s.steps[:at2:at2], append([]step{decoy}, s.steps[at2:]...)...)
+	}
 	return s
 }
 
@@ -1121,11 +1231,15 @@ func (g *gen) directed(which int) *script {
 		}
 	}
 	valid := func(i int) *tokSpec { j := drv.Pick(g.r, tl[i]); return g.token("valid", j.kid, j.key) }
-	s := &script{skip: g.r.Chance(1, 4)}
+	s := &script{skip: g.r.Chance(1, 4), viaRP: g.r.Chance(1, 3)}
 	add := func(st ...step) { s.steps = append(s.steps, st...) }
 	rot := func(i int) step { return step{op: "rotate", set: tl[i]} }
 	if which < 9 {
 		add(rot(0))
+	}
+	if which < 12 && g.r.Chance(1, 6) { // the classic shapes now and then with another deployment's key set created first
+		nj := &jwkSpec{kid: g.freshKid(), use: "sig", key: drv.Pick(g.r, g.pool)}
+		s.steps = append([]step{{op: "neighbour", set: []*jwkSpec{nj}, tok: g.token("valid", nj.kid, nj.key)}}, s.steps...)
 	}
 	arrive := func(t *tokSpec) step { return step{op: "arrive", tok: t} }
 	release := func(r *respSpec) step { return step{op: "release", resp: r} }
@@ -1336,6 +1450,69 @@ func (g *gen) directed(which int) *script {
 			step{op: "rotate", set: s1}, arrive(g.token("valid", jd.kid, jd.key)), release(g.goodResp(s1)),
 			arrive(x), release(g.goodResp(s1)), arrive(forged), arrive(x), release(g.goodResp(s1)), arrive(yb),
 			arrive(g.token("older", ja.kid, ja.key)), release(g.down()), arrive(yb))
+	case 16: // every algorithm family: a key set with P-256, P-384, P-521, Ed25519 and RSA keys, a token of each
+		// of ES256 ES384 ES512 EdDSA RS256 RS384 RS512 PS256 PS384 PS512 - one download, then from the cache
+		s.tags = []string{"shape=alg_families"}
+		var set []*jwkSpec
+		byAlg := map[jose.SignatureAlgorithm]*jwkSpec{}
+		for _, i := range g.r.Perm(len(g.pool)) {
+			k := g.pool[i]
+			fam := k.alg
+			if k.kty == "KRsa" {
+				fam = jose.RS256
+			}
+			if byAlg[fam] == nil {
+				byAlg[fam] = &jwkSpec{kid: g.freshKid(), use: drv.Pick(g.r, []string{"sig", "sig", ""}), key: k}
+				set = append(set, byAlg[fam])
+			}
+		}
+		var toks []*tokSpec
+		for _, a := range allAlgs {
+			fam := a
+			if strings.HasPrefix(string(a), "RS") || strings.HasPrefix(string(a), "PS") {
+				fam = jose.RS256
+			}
+			j := byAlg[fam]
+			payload := []byte(fmt.Sprintf(`{"sub":"alg-%s","n":%d}`, a, g.r.IntN(1000)))
+			toks = append(toks, &tokSpec{kind: "valid", kid: j.kid, signer: j.key, alg: a, payload: payload, compact: sign(j.kid, j.key, a, payload)})
+		}
+		g.r.Shuffle(len(toks), func(a, b int) { toks[a], toks[b] = toks[b], toks[a] })
+		add(step{op: "rotate", set: set})
+		for _, t := range toks[:3] {
+			add(arrive(t))
+		}
+		add(release(g.goodResp(set)))
+		for _, t := range toks[3:] {
+			add(arrive(t))
+		}
+		for _, t := range toks[:3] {
+			add(arrive(t))
+		}
+		// kid-less tokens: the only key of the family's type? (EC has three curves side by side: ambiguous)
+		add(arrive(g.token("kidless", "", byAlg[jose.EdDSA].key)), arrive(g.token("kidless", "", byAlg[jose.ES512].key)), release(g.goodResp(set)))
+	case 17: // two deployments behind one jwks_uri string, reached through different http clients: each key set
+		// verifies exactly what ITS endpoint serves, whoever came first, however the key set was obtained
+		s.tags = []string{"shape=two_deployments"}
+		g.side(170)
+		s.viaRP, s.skip = (g.alt[170]/2)%2 == 0, false
+		ab := distinct(3, drv.Pick(g.r, []string{"KEc", "KOkp", "KRsa"}))
+		ja := &jwkSpec{kid: g.freshKid(), use: "sig", key: ab[0]}
+		ja2 := &jwkSpec{kid: g.freshKid(), use: "sig", key: ab[2]}
+		jb := &jwkSpec{kid: g.freshKid(), use: "sig", key: ab[1]}
+		if g.r.Bool() { // both deployments name their key alike
+			jb.kid = ja.kid
+		}
+		setA, setB := []*jwkSpec{ja, ja2}, []*jwkSpec{jb}
+		tA := func() *tokSpec { return g.token("valid", ja.kid, ja.key) }
+		tB := func() *tokSpec { return g.token("other_deployment", jb.kid, jb.key) }
+		nb := step{op: "neighbour", set: setB, tok: tB()}
+		if g.alt[170]%2 == 1 { // the other deployment's key set exists first
+			add(nb, step{op: "rotate", set: setA}, arrive(tB()), arrive(tA()), release(g.goodResp(setA)),
+				arrive(tA()), arrive(tB()), release(g.goodResp(setA)), arrive(g.token("valid", ja2.kid, ja2.key)))
+		} else { // ours is warm when the other one appears
+			add(step{op: "rotate", set: setA}, arrive(tA()), release(g.goodResp(setA)), nb,
+				arrive(tA()), arrive(tB()), release(g.goodResp(setA)), arrive(g.token("valid", ja2.kid, ja2.key)), nb, arrive(tA()))
+		}
 	case 9: // one kid, several keys: key types side by side under the same kid, kid-less neighbours
 		s.tags = []string{"shape=shared_kid"}
 		a := drv.Pick(g.r, g.pool)
@@ -1484,12 +1661,14 @@ func (s *script) finishTags() {
 		case "arrive":
 			nArr++
 			add("tok=" + st.tok.kind)
-			add("alg=" + string(st.tok.signer.alg))
+			add("alg=" + string(st.tok.alg))
 		case "cancel":
 			nCan++
 			if st.tid >= nArr {
 				add("precancel=1")
 			}
+		case "neighbour":
+			add("neighbour=same_jwks_uri_other_client")
 		case "rotate":
 			seen := map[string]bool{}
 			if len(st.set) > 8 {
@@ -1533,6 +1712,11 @@ func (s *script) finishTags() {
 	add(fmt.Sprintf("cancels=%d", nCan))
 	if s.skip {
 		add("skipremote=1")
+	}
+	if s.viaRP && !s.skip {
+		add("via=relying_party")
+	} else {
+		add("via=NewRemoteKeySet")
 	}
 	if len(s.tags) == 0 || !strings.HasPrefix(s.tags[0], "shape=") {
 		add("shape=random")
@@ -1727,7 +1911,7 @@ func main() {
 	cfg := drv.Parse()
 	r := drv.NewRand(cfg.Seed)
 	w := emit.NewWriter(cfg.Out, "C13_spec", 0, cfg.Only)
-	n := cfg.Count(208, 3000)
+	n := cfg.Count(216, 3000)
 	pool := mkPool()
 	g := &gen{r: r, pool: pool}
 	maxWait := 150 * time.Millisecond
@@ -1737,7 +1921,7 @@ func main() {
 	for i := 0; i < n; i++ {
 		var s *script
 		if i%4 == 0 {
-			s = g.directed((i / 4) % 16)
+			s = g.directed((i / 4) % 18)
 		} else if i%8 == 2 { // the sweeps are what walks through the malformed catalogue: 1 script in 8
 			s = g.directed(12)
 		} else {
@@ -1790,16 +1974,22 @@ func main() {
 			w.Add(emit.Case{Input: "(Script false [])", Observed: "(OScript [])", Tags: []string{"dropped=deadline_before_expire_step"}})
 			continue
 		}
-		human := map[string]any{"skip": s.skip, "snapshots": snaps2}
+		human := map[string]any{"skip": s.skip, "key_set_via_relying_party": s.viaRP && !s.skip, "snapshots": snaps2}
 		var hs []string
 		for _, st := range s.steps {
 			switch st.op {
 			case "arrive":
-				hs = append(hs, fmt.Sprintf("arrive tok{kind=%s kid=%q alg=%s signer=%d}", st.tok.kind, st.tok.kid, st.tok.signer.alg, st.tok.signer.mat))
+				hs = append(hs, fmt.Sprintf("arrive tok{kind=%s kid=%q alg=%s signer=%d}", st.tok.kind, st.tok.kid, st.tok.alg, st.tok.signer.mat))
 			case "cancel":
 				hs = append(hs, fmt.Sprintf("cancel %d", st.tid))
 			case "expire":
 				hs = append(hs, fmt.Sprintf("expire %d (context.WithDeadline passes)", st.tid))
+			case "neighbour":
+				d := "ANOTHER key set for the same jwks_uri string, own http client, downloads and uses"
+				for _, j := range st.set {
+					d += fmt.Sprintf(" {kid=%q %s use=%q key=%d}", j.kid, j.key.kty, j.use, j.key.mat)
+				}
+				hs = append(hs, d)
 			case "rotate":
 				d := "endpoint now publishes"
 				for _, j := range st.set {
@@ -1839,8 +2029,8 @@ func main() {
 	}
 	must(w.Close(emit.Meta{
 		Property: "C13", Tier: cfg.Tier, Seed: cfg.Seed,
-		Rule: "each case = one macro-schedule (arrive/cancel/expire/release + rotate = ground truth of what the endpoint publishes; expire = a real context.WithDeadline passing) of 2-6 concurrent VerifySignature calls on a fresh rp.NewRemoteKeySet " +
-			"behind a gated RoundTripper; 1 in 4 directed shapes (owner cancel, pre-cancelled owner, joiner cancel, owner deadline expires, joiner deadline expires, rotation, failure keeps cache, unknown kid, fail-recover-rotate, one kid shared by keys of several types, keys without kid x tokens with kid and vice versa across a rotation, repeated kid-less tokens on a key set of mixed key types, outage sweep, key set of 9-20 keys, near-miss / keyword / 1-4 KiB kids on the accept and the reject side, the same token replayed around a forged one and after its key was retired; SkipRemoteCheck 1 in 4), " +
+		Rule: "each case = one macro-schedule (arrive/cancel/expire/release + rotate = ground truth of what the endpoint publishes; expire = a real context.WithDeadline passing) of 2-25 concurrent VerifySignature calls on a fresh remote key set (rp.NewRemoteKeySet, or 1 in 3 the IDTokenVerifier().KeySet of rp.NewRelyingPartyOIDC with rp.WithHTTPClient; always the same jwks_uri string, its own http client; neighbour = another key set for that string behind another client serving another document) " +
+			"behind a gated RoundTripper; 1 in 4 directed shapes (owner cancel, pre-cancelled owner, joiner cancel, owner deadline expires, joiner deadline expires, rotation, failure keeps cache, unknown kid, fail-recover-rotate, one kid shared by keys of several types, keys without kid x tokens with kid and vice versa across a rotation, repeated kid-less tokens on a key set of mixed key types, outage sweep, key set of 9-20 keys, near-miss / keyword / 1-4 KiB kids on the accept and the reject side, the same token replayed around a forged one and after its key was retired, one key per algorithm family with tokens of ES256 ES384 ES512 EdDSA RS/PS 256 384 512, two deployments behind one jwks_uri string; SkipRemoteCheck 1 in 4), " +
 			"1 in 8 an outage sweep (warm cache; five refreshes answered by the next five entries of the malformed-200 catalogue - empty, blank, null, scalars, arrays, no / null / non-array keys member, truncated, trailing bytes, not JSON, unreadable body; Content-Type varied - each followed by a token of a cached and still published key, then the endpoint down, then recovery), " +
 			"the rest random phases over a timeline of rotating key sets (1 in 3 with a same-kid / kid-less neighbour of another or the same key type, before or after) (1 in 10 of 9-14 keys; keyword-like and odd kids) with valid/future/older/unknown-kid/near-miss-kid/kid-less/wrong-key/replayed tokens and good (any Content-Type, white space around the document)/huge (up to 2 MiB)/5xx/non-200 (17 statuses) with a JWKS, no or an HTML body/malformed (the catalogue)/junk-only/empty/transport-error answers. " +
 			"Observed = snapshot after every step at quiescence. non-trivial = at least one caller arrived (path != 0); distinct = distinct (input, observed) terms.",
